@@ -321,10 +321,96 @@ fn op_ub_probe(ctx: &mut Ctx, r: &mut Rng) {
 // 2. scenarios, plan re-check
 // ------------------------------------------------------------------------------------------------
 
+fn flat_link(idx: u32, len: f64, speed: f64, grade: f64) -> Link {
+    Link {
+        idx_curr: LinkIdx::new(idx),
+        length: uc::M * len,
+        elevs: vec![Elev { offset: uc::M * 0.0, elev: uc::M * 100.0 }, Elev { offset: uc::M * len, elev: uc::M * (100.0 + grade * len) }],
+        headings: vec![],
+        speed_set: Some(SpeedSet {
+            speed_limits: vec![SpeedLimit { offset_start: uc::M * 0.0, offset_end: uc::M * len, speed: uc::MPS * speed }],
+            speed_params: vec![],
+            is_head_end: false,
+        }),
+        ..Default::default()
+    }
+}
+
+/// graft a branch line onto the main line: it leaves the forward main segment `j` (alternative next link) and
+/// runs to its own terminus; the reverse branch joins the reverse main segment `j`.
+/// Returns (forward branch links, reverse branch links), None if segment `j` already carries a switch.
+fn graft_branch(r: &mut Rng, dn: &mut DispNet, j: usize, m: usize) -> Option<(Vec<u32>, Vec<u32>)> {
+    let (fmj, rmj) = (dn.main_fwd[j] as usize, dn.main_rev[j] as usize);
+    if dn.net[fmj].idx_next_alt.is_real() || dn.net[rmj].idx_prev_alt.is_real() || !dn.net[fmj].link_idxs_lockout.is_empty() {
+        return None;
+    }
+    // no coincident switch points: the next main segment must not be the end of a siding
+    if j + 1 < dn.main_fwd.len() && dn.net[dn.main_fwd[j + 1] as usize].idx_prev_alt.is_real() {
+        return None;
+    }
+    let base = dn.net.len() as u32;
+    let fb: Vec<u32> = (0..m as u32).map(|i| base + i).collect();
+    let rb: Vec<u32> = (0..m as u32).map(|i| base + m as u32 + i).collect();
+    let lens: Vec<f64> = (0..m).map(|_| r.range(12, 40) as f64 * 250.0).collect();
+    for i in 0..m {
+        let mut l = flat_link(fb[i], lens[i], 15.0, 0.0);
+        l.idx_prev = LinkIdx::new(if i == 0 { fmj as u32 } else { fb[i - 1] });
+        l.idx_next = LinkIdx::new(if i + 1 < m { fb[i + 1] } else { 0 });
+        l.idx_flip = LinkIdx::new(rb[i]);
+        dn.net.push(l);
+    }
+    for i in 0..m {
+        let mut l = flat_link(rb[i], lens[i], 15.0, 0.0);
+        l.idx_next = LinkIdx::new(if i == 0 { rmj as u32 } else { rb[i - 1] });
+        l.idx_prev = LinkIdx::new(if i + 1 < m { rb[i + 1] } else { 0 });
+        l.idx_flip = LinkIdx::new(fb[i]);
+        dn.net.push(l);
+    }
+    dn.net[fmj].idx_next_alt = LinkIdx::new(fb[0]);
+    dn.net[rmj].idx_prev_alt = LinkIdx::new(rb[0]);
+    Some((fb, rb))
+}
+
+/// main line with sidings plus a branch line (junction): four origin/destination relations
+fn gen_branch_sc(r: &mut Rng, max_trains: usize) -> Option<Scenario> {
+    let n_main = r.usize(4, 9);
+    let mut siding_at: Vec<usize> = vec![];
+    let mut k = 1;
+    while k + 1 < n_main {
+        if r.chance(0.5) { siding_at.push(k); k += 2; } else { k += 1; }
+    }
+    let mut dn = gen_disp_net(r, n_main, &siding_at, false);
+    let j = r.usize(0, n_main - 2);
+    let m = r.usize(1, 3);
+    let (fb, rb) = graft_branch(r, &mut dn, j, m)?;
+    let nt = r.usize(2, max_trains);
+    let window = *r.pick(&[0i64, 5, 20]);
+    let mut trains = vec![];
+    let mut dirs = vec![];
+    for t in 0..nt {
+        let (o, d, east) = match r.below(4) {
+            0 => (dn.main_fwd[0], dn.main_fwd[n_main - 1], true),
+            1 => (dn.main_fwd[0], fb[m - 1], true),
+            2 => (dn.main_rev[n_main - 1], dn.main_rev[0], false),
+            _ => (rb[m - 1], dn.main_rev[0], false),
+        };
+        let depart = r.range(0, window) as f64 * 60.0;
+        trains.push(gen_train(r, &format!("T{}", t + 1), vec![location("O", o)], vec![location("D", d)], depart));
+        dirs.push(east);
+    }
+    Some(Scenario { dn, trains, dirs })
+}
+
 fn gen_sc(r: &mut Rng, max_trains: usize) -> (Scenario, &'static str) {
-    let class = r.below(5);
+    let class = r.below(6);
     if class == 0 {
         return (gen_scenario(r, max_trains), "base");
+    }
+    if class == 5 {
+        return match gen_branch_sc(r, max_trains) {
+            Some(sc) => (sc, "branch_junction"),
+            None => (gen_scenario(r, max_trains), "base"),
+        };
     }
     let n_main = r.usize(3, 12);
     let mut siding_at: Vec<usize> = vec![];
@@ -728,6 +814,9 @@ fn panic_clause(msg: &str) -> &'static str {
         "panic_rewind_after_exit"
     } else if msg.contains("invalid new offset") {
         "panic_rewind_invalid_offset"
+    } else if msg.contains("disp_node_idx_fixed.idx() == self.disp_path.len()") {
+        // calc_timed_path on a train that never finished: a train was dropped from the queue
+        "panic_timed_path_of_unfinished_train"
     } else if msg.contains("was placed prior to the front of the next train") {
         "panic_back_before_next_front"
     } else if msg.contains("was placed past the back of train") {
@@ -764,8 +853,9 @@ fn run_scenario(ctx: &mut Ctx, rr: &mut Rng, max_trains: usize, budget_s: u64) {
         sc.dirs.retain(|_| { k += 1; keep.contains(&k) });
     }
     ctx.count(&format!("c05.scenario.class.{}", class));
-    if sc.dn.net.validate().is_err() {
+    if let Err(e) = sc.dn.net.validate() {
         ctx.count("c05.scenario.net_invalid");
+        ctx.sample("c05.net_invalid", json!({"class": class, "error": format!("{:?}", e).chars().take(400).collect::<String>()}));
         return;
     }
     let mut ets: Vec<EstTimeNet> = vec![];
@@ -773,7 +863,7 @@ fn run_scenario(ctx: &mut Ctx, rr: &mut Rng, max_trains: usize, budget_s: u64) {
         match guard(|| make_est_times(t.clone(), &sc.dn.net)) {
             Some(Ok((et, _))) => ets.push(et),
             Some(Err(_)) => { ctx.count("c05.scenario.est_err"); return; }
-            None => { ctx.count("c05.scenario.est_panic"); return; }
+            None => { ctx.count("c05.scenario.est_panic"); ctx.sample("c05.est_panic", json!({"class": class, "case_seed": case_seed, "panic": last_panic()})); return; }
         }
     }
     let n = sc.trains.len();
@@ -985,9 +1075,9 @@ enum Item {
 
 fn items(tier: &str) -> Vec<Item> {
     let thorough = tier == "thorough";
-    let mut v = vec![Item::Fns; if thorough { 6000 } else { 500 }];
+    let mut v = vec![Item::Fns; if thorough { 8000 } else { 800 }];
     v.extend(vec![Item::UbProbe; if thorough { 12 } else { 3 }]);
-    v.extend(vec![Item::Scenario; if thorough { 1200 } else { 120 }]);
+    v.extend(vec![Item::Scenario; if thorough { 3000 } else { 300 }]);
     v
 }
 
